@@ -49,7 +49,7 @@ PROPS = {
                 note="Trusted: numpy contracts of the closure; the verdict of a user filter is a function of the k-mer only.",
                 technique="chain of contracts (mask <=> filter, arcs inside mask, strand is a walk, k-mer shift lemma) + bounded chain driver"),
     "C03": dict(title="The coding graph is the largest closed subgraph, or a ValueError", level="other", bounded=["C03"], design="8/C03",
-                proof=["dsw.spiderweb.connect_coding_graph#t234", "harness.c03_smaller_mask_smaller_graph", "dsw.graphized.obtain_latters", "lemma.ssum_zero_iff",
+                proof=["dsw.spiderweb.connect_coding_graph#t234", "harness.c03_smaller_mask_smaller_graph", "dsw.graphized.remove_useless", "dsw.graphized.obtain_latters", "lemma.ssum_zero_iff",
                        "lemma.ssum_mono_eq", "lemma.ipow_mono"],
                 explanation="PROVED for thresholds 2, 3, 4 on the real connect_coding_graph (whole function): with an ARBITRARY closed subset S of the "
                             "mask as a universally quantified ghost input, the returned vertex set is inside the mask, closed (every retained vertex "
@@ -57,14 +57,23 @@ PROPS = {
                             "its induced graph, the returned description marks exactly the vertices with arcs, ValueError is raised only when every "
                             "closed subset is empty, the trimming loop terminates (variant = number of marked vertices) and the mask parameter is "
                             "never stored into.  'A smaller mask never yields a larger graph' is a client lemma over that contract (harness.c03_smaller_mask_smaller_graph: "
-                            "the graph of the smaller mask is a closed subset of the larger mask, so the greatest one contains it), thresholds 2..4.  BOUNDED "
-                            "(never counted as proved): the threshold-1 clean-up phase (networkx find_cycle, try/except: outside the engine) and agreement "
-                            "with latter-map trimming (remove_useless).",
+                            "the graph of the smaller mask is a closed subset of the larger mask, so the greatest one contains it), thresholds 2..4.  "
+                            "LATTER-MAP TRIMMING PROVED on the real remove_useless (all four loops, every threshold, every map whose lists have at most "
+                            "four entries): if the call returns, the result is a sub-map of the input (keys and list entries come from it), it is CLOSED "
+                            "(every key lists >= t vertices and every listed vertex is a key - so no arc to a dead end survives), and it CONTAINS EVERY "
+                            "vertex set that is closed in the input (arbitrary closed set S as a universally quantified ghost input, entries counted by "
+                            "list position as the code counts them): it is the largest closed sub-map, the same characterisation as generation's.  The two "
+                            "classification lists are abstracted to their element sets (append / membership only), the position of each key in the "
+                            "insertion order is an explicit ghost function (requires: every key is listed once - true of every Python dict).  BOUNDED "
+                            "(never counted as proved): the threshold-1 clean-up phase (networkx find_cycle, try/except: outside the engine); termination "
+                            "of remove_useless's `while True` (partial correctness only); that latter_map_to_accessor(threshold=t) writes that largest "
+                            "sub-map back into an accessor equal to generation's (the composition is exercised by the bounded driver on every mask).",
                 demoted=["threshold 1: information-free-cycle removal phase (networkx) - bounded B2, all 65,536 order-2 masks in the thorough tier",
-                         "latter-map trimming agreement (remove_useless) - bounded B2"],
-                claim="Mixed: thresholds 2..4 deductive for all k >= 1 and all masks (no bound) incl. monotonicity in the mask; threshold 1 and trimming agreement bounded.",
+                         "latter-map trimming: termination of remove_useless and the composition latter_map_to_accessor(threshold=t) == generation - bounded B2 "
+                         "(the trimming function itself is proved to return the largest closed sub-map)"],
+                claim="Mixed: thresholds 2..4 deductive for all k >= 1 and all masks (no bound) incl. monotonicity in the mask; latter-map trimming deductive as a largest-closed-sub-map contract on remove_useless (partial correctness); threshold 1 and the end-to-end trimming agreement bounded.",
                 note="Trusted: numpy zeros/ones/where/sum/fancy-indexing contracts (DESIGN 3). Bounded part: exhaustive order-2 masks only in the thorough tier.",
-                technique="greatest-fixed-point loop contract on connect_coding_graph + exhaustive order-2 run-time contract checking"),
+                technique="greatest-fixed-point loop contracts on connect_coding_graph and remove_useless (arbitrary closed set as ghost input) + exhaustive order-2 run-time contract checking"),
     "C04": dict(title="Encoding is total, dead-end free and tight on generated graphs", level="other", bounded=["C04"], design="8/C04",
                 proof=["dsw.spiderweb.encode#fast", "dsw.spiderweb.encode#fast-table", "dsw.spiderweb.encode#fast-vt", "dsw.spiderweb.encode#fast-table-vt", "dsw.spiderweb.encode#normal", "dsw.spiderweb.encode#normal-table", "dsw.spiderweb.encode#normal-vt", "dsw.spiderweb.encode#normal-table-vt", "dsw.operation.bit_to_number#str", "dsw.operation.number_to_bit#str", "dsw.operation.calculus_division", "dsw.operation.calculus_multiplication", "dsw.operation.calculus_addition", "lemma.pv_positive", "lemma.pv_bound", "lemma.pv_store_frame",
                        "harness.c04_tight_normal", "harness.c04_tight_normal_table", "harness.c04_step_bound_normal", "harness.c04_step_bound_normal_table",
